@@ -6,7 +6,7 @@ RULE = ("with the RNG tap (hook) and the real thread_rng: every operation kind i
         "(count, lengths, bytes) are compared with the model's prediction (32 bytes: unseeded keygen, hedged ML-DSA sign; 64 bytes: "
         "randomized Dilithium sign; none: seeded keygen, deterministic sign, verify); the output must be the model's output on "
         "exactly the logged bytes (second stage, scripted tape); logged draws of repeated calls must be pairwise distinct and "
-        "outputs of repeated randomized calls pairwise distinct, deterministic ones identical. distinct_nontrivial = distinct requests.")
+        "outputs of repeated randomized calls pairwise distinct, deterministic ones identical. distinct_nontrivial = distinct requests. Output buffers are pre-filled differently on every call; no-draw signatures are replayed against the model.")
 EXPLANATION = ("Props/C09.lean: the library as a machine over an RNG tape: per-operation amounts, consumption in call order over any "
                "call sequence, output = specification's function of exactly the drawn bytes. That thread_rng is an OS-seeded CSPRNG is "
                "rand's contract (trusted).")
